@@ -132,6 +132,37 @@ def rng_seam(seed, script=None, record=None):
     def py_random():
         return float(src.uniform(_caller_role(), ())[()])
 
+    def np_shuffle(x):
+        # in-place permutation decided by one uniform per element (argsort of the draws)
+        n = len(x)
+        perm = np.argsort(src.uniform(_caller_role(), (n,)), kind="stable")
+        if isinstance(x, np.ndarray):
+            x[...] = x[perm]
+        else:
+            x[:] = [x[i] for i in perm]
+
+    def np_poisson(lam=1.0, size=None):
+        role = _caller_role()
+
+        def one(l):
+            l = float(l)
+            if l <= 0:
+                return 0
+            if l > 50:  # normal approximation is good enough for a simulated count
+                return int(max(0, round(l + np.sqrt(l) * float(src.normal(role, ())[()]))))
+            k, p, lim = 0, 1.0, np.exp(-l)
+            while True:
+                p *= float(src.uniform(role, ())[()])
+                if p <= lim:
+                    return k
+                k += 1
+
+        if size is None and np.ndim(lam) == 0:
+            return one(lam)
+        shape = np.shape(lam) if size is None else (tuple(size) if isinstance(size, (tuple, list)) else (size,))
+        lam_b = np.broadcast_to(np.asarray(lam, dtype=float), shape)
+        return np.array([one(l) for l in lam_b.reshape(-1)], dtype=np.int64).reshape(shape)
+
     patches = [
         (tf.random, "uniform", tf_uniform),
         (tf.random, "normal", tf_normal),
@@ -142,6 +173,8 @@ def rng_seam(seed, script=None, record=None):
         (np.random, "normal", np_normal),
         (np.random, "chisquare", np_chisquare),
         (pyrandom, "random", py_random),
+        (np.random, "shuffle", np_shuffle),
+        (np.random, "poisson", np_poisson),
     ]
     saved = [(o, n, getattr(o, n)) for o, n, _ in patches]
     for o, n, f in patches:
